@@ -409,6 +409,7 @@ func checkC10(c *Check) {
 	c10EnvelopeReadOnly(c, "R8")
 	c10NoMetaStoreAfterBody(c, "R9")
 	c10NoPooledBuffer(c, "R10")
+	c10EnvelopeIsValidUTF8(c, "R11")
 
 	// ---- R3e: per-message flags are finalised after MAIL (TLS-Required override at DATA, quarantine by the checks), so
 	// every layer down to the spool must keep the very metadata object it was given
